@@ -199,10 +199,11 @@ def run_shard(desc) -> Acc:
                 mt = n_in % 256 if n_in < 256 * 2 else rnd.choice([0, 0, 2, 2, 4, 4, 1, 3, 5, 6, rnd.randrange(256)])
                 n_in += 1
                 plen = rnd.choice([0, 0, 1, 2, 5, 20, 80, 127, 200, 254])
-                f = dict(type=mt, profile=rnd.randrange(65536), cluster=rnd.randrange(65536), src_ep=rnd.randrange(256),
-                         dst_ep=rnd.randrange(256), options=rnd.randrange(65536), group=rnd.randrange(65536),
+                b16 = lambda: rnd.choice([0x0000, 0xFFFF, 0xFFFE, 0xFFFC, own_nwk, rnd.randrange(65536), rnd.randrange(65536), rnd.randrange(65536)])  # noqa: E731
+                f = dict(type=mt, profile=b16(), cluster=b16(), src_ep=rnd.choice([0, 255, 1, rnd.randrange(256)]),
+                         dst_ep=rnd.choice([0, 255, 1, rnd.randrange(256)]), options=rnd.randrange(65536), group=b16(),
                          aps_seq=rnd.randrange(256), lqi=rnd.choice([0, 255, rnd.randrange(256)]),
-                         rssi=rnd.choice([-128, 127, 0, -1, rnd.randrange(-128, 128)]), sender=rnd.randrange(65536),
+                         rssi=rnd.choice([-128, 127, 0, -1, rnd.randrange(-128, 128)]), sender=b16(),
                          binding=rnd.randrange(256), address=rnd.randrange(256), payload=rnd.randbytes(plen),
                          eui64=rnd.randbytes(8), timestamp=rnd.getrandbits(32))
                 seq = (ncp.requests[-1][3] - 1) % 256 if ncp.requests else 200  # a completed command's sequence
@@ -273,8 +274,9 @@ def run_shard(desc) -> Acc:
                 for b_ in range(burst):
                     st_ = rnd.choice([0, 1, 2, 3, 4, 5, 7, 6, rnd.randrange(256)])
                     dec = rnd.choice([0, 1, 2, 3, rnd.randrange(256)])
-                    f = dict(nwk=rnd.randrange(65536), ieee=rnd.choice([rnd.randbytes(8), lumi, bytes([b_ + 1]) + lumi[1:5] + bytes([0x44, 0xEF, 0x54])]),
-                             status=st_, decision=dec, parent=rnd.randrange(65536))
+                    f = dict(nwk=rnd.choice([0x0000, 0xFFFE, 0xFFFF, rnd.randrange(65536), rnd.randrange(65536)]),
+                             ieee=rnd.choice([rnd.randbytes(8), lumi, bytes([b_ + 1]) + lumi[1:5] + bytes([0x44, 0xEF, 0x54]), bytes(8), b"\xff" * 8]),
+                             status=st_, decision=dec, parent=rnd.choice([0x0000, 0xFFFF, rnd.randrange(65536)]))
                     fields_all.append({k: (v.hex() if isinstance(v, bytes) else v) for k, v in f.items()})
                     seq = (ncp.requests[-1][3] - 1) % 256 if ncp.requests else 200
                     frames.append(enc_tcjoin(V, seq, f))
